@@ -40,6 +40,10 @@ func (w *World) join(f *World, buf *bytes.Buffer) {
 // (a conversion touches the common prefix and nothing beyond it) while one more goroutine per writer stores into
 // that last frame through a window of its own.
 func SharedRun(w *World, rng *rand.Rand, ty string, ch, roFrames, wFrames, R, W, opsPer, procs, mode int) {
+	pooled := mode == 6 // the root comes from a pool allocator and nothing has been stored in it before the writers start
+	if pooled {
+		mode = 0
+	}
 	fresh := mode == 5 // the shared read-only buffer is a fresh allocation that nothing has touched, sliced or looked at
 	if fresh {
 		mode = 1
@@ -60,8 +64,15 @@ func SharedRun(w *World, rng *rand.Rand, ty string, ch, roFrames, wFrames, R, W,
 	w.NoObs = true
 	defer func() { w.NoObs = false }()
 	total := roFrames + W*wFrames
-	root := w.filledRoot(ty, ch, total)
-	if isFloatTy(ty) { // NaN, infinities, negative zero among the shared samples (read-only use must not "repair" them)
+	var root int
+	if pooled {
+		p := NewPool(ty, allocator(ch, total, total))
+		w.AllocWith(ty, KindOf(ty), ch, total, total, func() View { return p.Get(false) })
+		root = len(w.Views) - 1
+	} else {
+		root = w.filledRoot(ty, ch, total)
+	}
+	if isFloatTy(ty) && !pooled { // NaN, infinities, negative zero among the shared samples (read-only use must not "repair" them)
 		fs := w.floatsFor(rng, ch*roFrames)
 		fs[rng.Intn(len(fs))] = oddFloats[1] // NaN
 		w.WriteFloats(root, fs)
@@ -368,6 +379,12 @@ func driveShared(s *shardSet, rng *rand.Rand, thorough bool) ([]string, map[stri
 		extra["concurrent_phases"]++
 		extra["fresh_shared_phases"]++
 	}
+	// pooled roots (mode 6): the buffer comes from a pool allocator and is first written by the concurrent writers
+	for i := 0; i < 6; i++ {
+		SharedRun(s.Next(), rng, BuiltinTypes[(i*5+1)%13], 1+i%3, 1+rng.Intn(3), 1+rng.Intn(3), 2, 3+rng.Intn(4), ops/2, []int{4, 16, 2}[i%3], 6)
+		extra["concurrent_phases"]++
+		extra["pooled_root_phases"]++
+	}
 	// prefix conversions (mode 4): every conversion family, common prefixes that are not multiples of 2, 4 or 8
 	np := 13
 	if thorough {
@@ -386,7 +403,7 @@ func driveShared(s *shardSet, rng *rand.Rand, thorough bool) ([]string, map[stri
 	// large windows (>= 4096 samples per writer): a conversion that splits big blocks over helper goroutines must
 	// still be race-free within its own window
 	for _, ty := range []string{"float64", "float32", "int16"} {
-		SharedRun(s.Next(), rng, ty, 2, 2, 2048, 2, 2, 4, 4, 0)
+		SharedRun(s.Next(), rng, ty, 2, 2, 2048+rng.Intn(100), 2, 2, 4, 4, 0) // (not a multiple of 512 or 1024 samples)
 		extra["concurrent_phases"]++
 	}
 	return types, extra
